@@ -15,6 +15,7 @@ const (
 
 type node struct {
 	key     []byte
+	raw     string // key as given, before encoding
 	members []*node
 	buf     []byte
 	size    int
@@ -27,6 +28,7 @@ type table struct {
 	key     any // string or int
 	size    int
 	columns []*table
+	raw     string // map column: key as given, before encoding
 }
 
 func (n *node) subKind() (kind byte) {
@@ -110,6 +112,7 @@ func (n *node) updateMapTable(t *table, lazy bool) {
 		}
 		if col == nil {
 			col = &table{key: k}
+			col.raw = m.raw
 			t.columns = append(t.columns, col)
 		}
 		switch m.kind {
@@ -126,6 +129,9 @@ func (n *node) updateMapTable(t *table, lazy bool) {
 	sort.Slice(t.columns, func(i, j int) bool {
 		ki, _ := t.columns[i].key.(string)
 		kj, _ := t.columns[j].key.(string)
+		if t.columns[i].raw != t.columns[j].raw { // members are in the order of the keys as given
+			return t.columns[i].raw < t.columns[j].raw
+		}
 		return ki < kj
 	})
 	t.size = 0
